@@ -1183,7 +1183,7 @@ def reuse_case(draw, shard, tier):
         hi = draw(st.integers(lo + 4, n))
         ops.append(dict(lo=lo, hi=hi) if draw(st.integers(0, 2)) else dict(lo=0, hi=n))
     case["ops"] = [dict(lo=0, hi=n)] + ops + [dict(lo=0, hi=n)]
-    case["clone_listeners"] = draw(st.sampled_from(["none", "none", "copy", "deepcopy", "pickle"]))
+    case["clone_listeners"] = draw(st.sampled_from(["none", "copy", "deepcopy", "pickle", "deepcopy"]))
     return case
 
 
